@@ -272,7 +272,10 @@ PROPS['C16'] = {
                   ('tree.RandomUniformBinaryTree', {'match': [r'^post', r'^callsite', r'^step', r'^inv', r'^bounds']}),
                   ('tree.RandomYuleBinaryTree', {'match': [r'^post', r'^callsite', r'^step', r'^inv', r'^pre\.rand']}),
                   ('tree.allTopologies_recur', {'match': [r'^callsite', r'^step']}),
-                  ('tree.AllTopologies', {'match': [r'^post', r'^callsite']})],
+                  ('tree.AllTopologies', {'match': [r'^post', r'^callsite']}),
+                  ('tree.RandomCaterpillarBinaryTree', {'match': [r'^post', r'^callsite', r'^step', r'^inv']}),
+                  ('tree.randomBalancedBinaryTreeRecur', {'match': [r'^post', r'^callsite']}),
+                  ('tree.RandomBalancedBinaryTree', {'match': [r'^post', r'^callsite']})],
     'trusted_base': TB_COMMON,
     'assumptions': A_COMMON,
     'not_decided': ['each of the (2n-5)!! / (2n-3)!! topologies exactly once (combinatorial bijection)', 'uniqueness of generated tip names (strconv.Itoa injective: trusted)'],
